@@ -82,6 +82,13 @@ def run(run, h):
             # without faults the reference is also the fault-free base run
             if not faults:
                 run.check_monitor("restored_state_continues_byte_identically", stripped == base, case)
+    # a customer whose revocation secret needs a long index search (27 / 38 retries): its stored Requested state must restore
+    for want, secret in LONG_INDEX_SECRETS[-2:]:
+        e = establish_request(h, M, rng.randbytes(32), 50, 60, b"li", [secret] * 3 + [rand_nz(rng) for _ in range(14)])
+        p = parse_requested(e["req_hex"])
+        case = {"op": "store_restore_long_index_secret", "secret": secret, "state_secret": p["state"]["secret"]}
+        run.case(case)
+        run.check_monitor("stored_bytes_restore_to_same_bytes", h.call("decode", "Requested", e["req_hex"]) == ["ok", e["req_hex"]], case)
     # every stage's bytes decode and re-encode to the same bytes (store / restore is the identity on the wire form)
     est = full_establish(h, M, rng, rng.randbytes(32), 500, 600, b"x")
     r = pay_once(h, M, rng, est["ready"], 7, b"y")
